@@ -1131,7 +1131,7 @@ class SSHProcess(SSHStreamSession, Generic[AnyStr]):
 
         self._recv_buf[datatype].clear()
 
-        if self._eof_received:
+        if self._eof_received and self._recv_eof.get(datatype, True):
             writer.write_eof()
 
         self._maybe_resume_reading()
